@@ -252,11 +252,16 @@ def user_functions(case):
         rate = lambda G, u, status, parameters: float(case['rt'][cfg(status)][im[u]])
         choice = lambda G, u, status, parameters: L(case['ct'][cfg(status)][im[u]])
         infl = lambda G, u, status, parameters: [order[i] for i in case['it'][cfg(status)][im[u]]]
-    form = case['infl_form']
+    form = case['infl_form']; istore = {}
 
     def infl_shaped(G, u, status, parameters):
         l = infl(G, u, status, parameters)
-        if form == 'set': return set(l)
+        if form in ('list', 'set'):
+            # a user who precomputes the influence sets hands back the SAME stored container whenever the answer is the same:
+            # an implementation that edits what it is given (adds the node itself, discards as it goes) corrupts the next answer
+            key = (repr(u), tuple(repr(x) for x in l))
+            if key not in istore: istore[key] = set(l) if form == 'set' else list(l)
+            return istore[key]
         if form == 'tuple': return tuple(l)
         if form == 'iter': return (x for x in l)
         if form == 'dictkeys': return {x: 1 for x in l}.keys()
